@@ -33,6 +33,21 @@ ONE dict of availabilities, ONE nest object, ONE dict of ln G_i: every ordered p
 loglogit included), the per-alternative loop (one call per alternative with a constant choice, in every rotation of the
 alternatives), thorough: every triple over 4-6 entry points, loop + call, all permutations.  Every expression is evaluated
 after all the calls of its history were made and must satisfy the same clauses (nothing else is demanded of a history).
+The alphabet of the steps of a history holds two more kinds of step (both on LIVE objects):
+  * a call that takes ONE of its arguments from a second set of argument objects and all the others from the shared set:
+    another dict of utilities (the same utilities plus one constant / another specification b U_i + c_i) with the shared
+    nest object, availabilities and parameters - one nest object serving two models one after the other -; another nest
+    object (same structure, other parameter values) with the shared utilities; another availability argument (None <-> dict).
+    Every ordered pair (call with the shared objects, call with one object of the second set) of entry points of the family
+    x every object of the second set; the reference is the closed form for the utilities / availabilities / parameters of
+    that call;
+  * a change of the VALUES of the parameter objects after expressions were built with them: Expression.change_init_values
+    on the built expressions, change_init_values on the parameter objects, the parameters= dictionary of the nest object's
+    correlation() / covariance(), the betas= dictionary of the evaluation (free parameters); for every pair of forms
+    (nest parameters fixed / free Betas) x (scale number / fixed / free Beta), every entry point of the family, two new
+    points of the parameter grid; also evaluate - change - evaluate on one expression.  The expressions are evaluated after
+    the change and must satisfy every clause for the values that the parameters then have ("for all nest and scale
+    parameters >= 1"; change_init_values: "the fact that the parameters are fixed or free is irrelevant here").
 
 Evaluation entry points: the engine on a database (all of the above), and - for formulas that hold no data variable
 (utilities as numbers / Numeric / fixed or free Betas / Beta + Numeric, constant or absent availabilities, constant choice) -
@@ -84,7 +99,12 @@ RULE = ('one case = one (model, expression forms, nest structure, parameter assi
         'per-parameter grids inside the bounds read from the returned expressions | declared initial values) x value. '
         'distinct = distinct such keys. '
         'Histories: one case = one evaluated call of one history (sequence of entry points called with one set of argument '
-        'objects) x availability pattern, same non-triviality rule, the history is part of the key. Evaluations without a database: '
+        'objects) x availability pattern, same non-triviality rule, the history is part of the key; a step of a history is a call '
+        '(entry point, data-column choice | per-alternative loop, optionally ONE argument taken from a second set of argument '
+        'objects: second dict of utilities / second nest object / second availability argument), a change of the values of the '
+        'parameter objects (route: change_init_values on the built expressions | on the parameter objects | parameters= of the nest '
+        'object | betas= of the evaluation; point of the parameter grid) or an evaluation of everything built so far; the expected '
+        'values are those of the arguments of the call and of the parameter values at the evaluation. Evaluations without a database: '
         'one case = one (model, forms, structure, parameters, availability pattern, evaluator) evaluated on every utility vector x '
         'chosen alternative x shift / level (one expression built and evaluated per probability); same non-triviality rule, the '
         'evaluator is part of the key. MEV models with correction terms: the correction vector and the form of the terms are part '
@@ -117,6 +137,26 @@ ASSUMPTIONS = [
     'the seed, user MEV J=2 all, J=3 every third; thorough: every J <= 3 nested structure, 3 J=4, 20 CNL structures, depth 3 '
     'over a 4-6 entry alphabet on one context per family and J); utilities are data columns in the histories; quick '
     'evaluates the last call of a pair (and its log / probability partner), thorough every call',
+    'histories whose calls do not share all their argument objects: [call with the shared objects, call with one object of the '
+    'second set], every ordered pair of the 16 (nested / cross-nested) or 4 (user MEV) entry points x every object of the second '
+    'set (second dict of utilities: another specification 0.5 U_i + c_i, thorough also the same utilities + one constant; second '
+    'nest object: same structure, every nest parameter at the next grid value, its own parameter objects; second availability '
+    'argument: None <-> dict; user MEV: the same utilities + one constant only, the hand-supplied ln G_i being those of the data '
+    'columns); at most ONE argument differs between the two calls; quick: one nested and one cross-nested context with a nest of '
+    '>= 2 alternatives (rotating with the seed, nests as objects), one user-MEV context per J, the last call evaluated; thorough: '
+    'every fifth context with its own syntax, both orders, every call evaluated',
+    'histories that change parameter values on live objects: [call, change], [call, evaluate, change] (thorough also [call, change, '
+    'call], [call, change, change], [per-alternative loop, change]) on the same contexts, for the 6 pairs of forms (nest '
+    'parameters fixed | free Beta) x (scale number | fixed | free Beta); 4 routes (change_init_values on the built expressions, on '
+    'the parameter objects, parameters= of NestsForNestedLogit.correlation / NestsForCrossNestedLogit.covariance, betas= of '
+    'get_value_c for free parameters); 2 points: every nest parameter at the next grid value; every nest parameter at the grid '
+    'value before and the scale at the other value of its grid; every entry point of the family that takes nests (quick: without '
+    'the camelCase names of the ln G_i helpers) for [call, change], the 5 core entry points for the other shapes; the alpha '
+    'parameters are not changed; all nest parameters of a context have the same form; a history holds either a second set of '
+    'argument objects or parameter changes, not both; the value of a parameter after a change follows the documented semantics '
+    '(a Beta reached by the route takes the value, fixed or free; numbers and Numeric keep theirs; betas= has precedence for '
+    'free parameters); covariance(): scipy.integrate.dblquad is owned (replaced by a one-point rule - the integrand, which applies '
+    'parameters=, is executed once; the value of the covariance is not part of this property)',
     'the reference (vf/ref_mev.py) is the trusted base: textbook nested / generalised nested logit closed forms with '
     'alpha^(mu_m/mu), cross-checked in every task against forward-mode differentiation of its own G(y)',
     'comparison tolerance: relative 1e-10 + absolute 1e-12 (shift invariance: relative 1e-9)',
@@ -332,13 +372,16 @@ def _nest_names(items, kind):
     return [None] * len(items), 3
 
 
-def build_nested_nests(alts, struct, mus, syntax='obj', pform='float'):
-    """struct = (alone, nests); nests listed in reverse order and members reversed (order must not matter)."""
+def build_nested_nests(alts, struct, mus, syntax='obj', pform='float', reg=None, suffix=''):
+    """struct = (alone, nests); nests listed in reverse order and members reversed (order must not matter).
+    reg: dict that receives the parameter objects by name; suffix: appended to the names of the parameters."""
     from biogeme.nests import OneNestForNestedLogit, NestsForNestedLogit
     alone, nests = struct
     items = []
     for k in reversed(range(len(nests))):
-        p = _param(pform, f'mu_n{k}', mus[k])
+        p = _param(pform, f'mu_n{k}{suffix}', mus[k])
+        if reg is not None:
+            reg[f'mu_n{k}{suffix}'] = p
         members = list(reversed(nests[k]))
         items.append((p, members))
     if syntax == 'tuple':
@@ -351,15 +394,17 @@ def build_nested_nests(alts, struct, mus, syntax='obj', pform='float'):
     return NestsForNestedLogit(choice_set=list(alts), tuple_of_nests=objs)
 
 
-def build_cnl_nests(alts, struct, mus, syntax='obj', pform='float', aform='float'):
+def build_cnl_nests(alts, struct, mus, syntax='obj', pform='float', aform='float', reg=None, suffix=''):
     from biogeme.nests import OneNestForCrossNestedLogit, NestsForCrossNestedLogit
     alone, nests = struct
     items = []
     for k in reversed(range(len(nests))):
-        p = _param(pform, f'mu_n{k}', mus[k])
+        p = _param(pform, f'mu_n{k}{suffix}', mus[k])
+        if reg is not None:
+            reg[f'mu_n{k}{suffix}'] = p
         al = {}
         for a in reversed(list(nests[k])):
-            al[a] = _param(aform, f'alpha_{a}_n{k}', nests[k][a])
+            al[a] = _param(aform, f'alpha_{a}_n{k}{suffix}', nests[k][a])
         items.append((p, al))
     if syntax == 'tuple':
         return tuple(items)
@@ -636,6 +681,10 @@ def shape_of(spec):
 
 
 HIST_TAG = 'after-earlier-calls-with-the-same-argument-objects'
+# histories in which a call takes one of its arguments from a second set of objects (the others are the shared ones), and
+# histories that change the values of the parameter objects after expressions were built with them
+ARGS_TAG = 'after-earlier-calls-sharing-some-of-the-argument-objects'
+SET_TAG = 'after-a-change-of-the-parameter-values-on-the-live-objects'
 
 
 def key_tail(spec):
@@ -643,7 +692,7 @@ def key_tail(spec):
     made on shared argument objects, the history class instead."""
     h = spec.get('hist')
     if h and h.get('later'):
-        return HIST_TAG
+        return h.get('tag') or HIST_TAG
     if spec.get('evaluator'):
         # evaluation without a database: the expression tree is the one the engine gets (a defect of a model function
         # shows under the engine keys); what is specific here is the evaluator, whose defects show in every structure
@@ -696,7 +745,10 @@ def check_values(spec, table, vals, ref, rec, log_model=False, collect=None):
         corr_txt = f', correction terms {spec["corr"]}' if spec.get('corr') is not None else ''
         if spec.get('hist'):
             case = dict(part='hist', hist=spec['hist'], group=grp)
-            hist_txt = f'; call {spec["hist"]["step"] + 1} of the history {spec["hist"]["history"]} made with the same argument objects'
+            hist_txt = (f'; step {spec["hist"]["step"] + 1} of the history {spec["hist"]["history"]} ' +
+                        {ARGS_TAG: 'whose calls share all but one of their argument objects',
+                         SET_TAG: 'that changes the values of the parameter objects after expressions were built with them'
+                         }.get(spec['hist'].get('tag'), 'made with the same argument objects'))
         else:
             case = dict(part='spec', spec=spec, group=grp, base=table.describe_group(table.base_of[g]))
         rec.violation(key, f'{clause}: model {model} {detail} at u={grp["u"]} avail={grp["avail"]} shift={grp["shift"]} '
@@ -768,7 +820,8 @@ def record_cases(spec, table, vals, bad, rec):
             key = [spec['model'], spec['alts'], spec.get('alone'), spec.get('nests'), spec.get('mus'),
                    spec.get('mu'), spec.get('gen'), spec.get('forms'), pat]
             if spec.get('hist'):
-                key.append([spec['hist']['history'], spec['hist']['step']])
+                key.append([spec['hist']['history'], spec['hist']['step']] +
+                           ([spec['hist']['at']] if spec['hist'].get('at') is not None else []))
             if spec.get('evaluator'):
                 key.append(spec['evaluator'])
             if spec.get('corr') is not None:
@@ -779,7 +832,8 @@ def record_cases(spec, table, vals, bad, rec):
             rec.case(key, None, outcome=(spec['model'], sum(pat), nt, ok, spec['evaluator']))
         elif spec.get('hist'):
             rec.case(key, None, outcome=(spec['model'], sum(pat), nt, ok, 'history', len(spec['hist']['history']),
-                                         bool(spec['hist'].get('later'))))
+                                         bool(spec['hist'].get('later'))) +
+                     ((spec['hist']['tag'],) if spec['hist'].get('tag') else ()))
         else:
             rec.case(key, None, outcome=(spec['model'], sum(pat), nt, ok))
         rec.evals += len(gs) - 1
@@ -1404,6 +1458,7 @@ class HistContext:
             extra = dict(extra or {}, **corr_columns(self.alts, ctx['corr'], len(self.table.groups) * self.J))
         self.db = self.table.database(extra)
         self._refs = {}
+        self._views = {}
 
     def base_spec(self, model):
         c = self.ctx
@@ -1420,102 +1475,291 @@ class HistContext:
             spec['corr'] = c['corr']
         return spec
 
-    def ref(self, spec):
-        k = (spec['kind'], spec.get('mu'), spec.get('corr') is not None)
+    def ref(self, spec, dev=None):
+        k = (spec['kind'], json.dumps(spec.get('mus')), spec.get('mu'), spec.get('corr') is not None,
+             dev if dev in ('V1', 'V2', 'A1') else None)
         if k not in self._refs:
-            self._refs[k] = ref_spec_probs(spec, self.table)
+            self._refs[k] = ref_spec_probs(spec, self.view(dev))
         return self._refs[k]
 
     def new_args(self):
         from biogeme.expressions import Variable
         c, f, alts = self.ctx, self.f, self.alts
         A = dict(V=build_util(alts, 'var', self.table.us[0]), av=build_av(alts, f['av'], self.table.pats[0]),
-                 nests=None, mu=None, log_gi=None, choice=Variable('CH'))
+                 nests=None, mu=None, log_gi=None, choice=Variable('CH'), params={}, second={})
         if self.kind == 'nested':
-            A['nests'] = build_nested_nests(alts, (c['alone'], c['nests']), c['mus'], f['syntax'], f['p'])
+            A['nests'] = build_nested_nests(alts, (c['alone'], c['nests']), c['mus'], f['syntax'], f['p'], reg=A['params'])
         elif self.kind == 'cnl':
-            A['nests'] = build_cnl_nests(alts, (c['alone'], c['nests']), c['mus'], f['syntax'], f['p'], f['alpha'])
+            A['nests'] = build_cnl_nests(alts, (c['alone'], c['nests']), c['mus'], f['syntax'], f['p'], f['alpha'],
+                                         reg=A['params'])
         else:
             A['log_gi'] = {a: Variable(f'LG_{a}') for a in alts[1:] + alts[:1]}
         if self.kind != 'usermev':
             A['mu'] = _param(f['mu'], 'mu_scale', c['mu'])
+            A['params']['mu_scale'] = A['mu']
         if c.get('corr') is not None:
             A['correction'] = build_correction(alts, f.get('corr', 'float'), c['corr'])
         return A
 
-    def call(self, model, A, choice, log_gi=None):
+    # ---- a second set of argument objects: a call of a history takes ONE of its arguments from it, the others are shared
+    def dev_constants(self):
+        """(constant of the second dict of utilities 'the same + a constant'; factor and per-alternative constants of the
+        second dict 'another specification')"""
+        return self.alph['shifts'][0], 0.5, [self.alph['diffs'][k % 3] for k in range(self.J)]
+
+    def dev_mus(self):
+        """nest parameters of the second nest object: the next value of the alphabet's grid for every nest"""
+        g = self.alph['mus']
+        return [g[(g.index(m) + 1) % len(g)] for m in self.ctx['mus']]
+
+    def args_for(self, A, dev):
+        """(V, av, nests) of a call: the shared objects, one of them replaced by the object `dev` of the second set:
+        V1 - another dict of utilities: the same utilities plus one constant; V2 - another dict of utilities: another
+        specification b U_i + c_i; N1 - another nest object: the same structure, other parameter values, its own parameter
+        objects; A1 - another availability argument: None where the shared one is a dict, a dict where it is None"""
+        from biogeme.expressions import Variable, Numeric
+        V, av, nests = A['V'], A['av'], A['nests']
+        if dev is None:
+            return V, av, nests
+        c, f, alts = self.ctx, self.f, self.alts
+        if dev not in A['second']:
+            shift, b, cs = self.dev_constants()
+            if dev == 'V1':
+                obj = {a: (Variable(f'U_{a}') + (shift if k % 2 else Numeric(shift))) for k, a in enumerate(alts)}
+            elif dev == 'V2':
+                obj = {a: b * Variable(f'U_{a}') + cs[k] for k, a in enumerate(alts)}
+            elif dev == 'A1':
+                obj = build_av(alts, 'var', self.table.pats[0]) if f['av'] == 'none' else None
+            elif dev == 'N1':
+                build = build_nested_nests if self.kind == 'nested' else build_cnl_nests
+                extra = (f['alpha'],) if self.kind == 'cnl' else ()
+                obj = build(alts, (c['alone'], c['nests']), self.dev_mus(), f['syntax'], f['p'], *extra, suffix='b')
+            else:
+                raise ValueError(dev)
+            A['second'][dev] = obj
+        obj = A['second'][dev]
+        if dev in ('V1', 'V2'):
+            return obj, av, nests
+        if dev == 'A1':
+            return V, obj, nests
+        return V, av, obj
+
+    def view(self, dev):
+        """the table as the call sees it: the utilities of the second dict, every alternative available under A1"""
+        if dev not in ('V1', 'V2', 'A1'):
+            return self.table
+        if dev not in self._views:
+            import copy
+            t = copy.copy(self.table)
+            shift, b, cs = self.dev_constants()
+            if dev == 'V1':
+                t.us = [[u + shift for u in us] for us in self.table.us]
+            elif dev == 'V2':
+                t.us = [[b * u + cs[k] for k, u in enumerate(us)] for us in self.table.us]
+            else:
+                t.pats = [[1] * self.J for _ in self.table.pats]
+            self._views[dev] = t
+        return self._views[dev]
+
+    # ---- values of the parameter objects
+    def param_names(self):
+        """(names of the nest parameters, name of the scale parameter) of the shared argument objects"""
+        if self.kind == 'usermev':
+            return [], None
+        return [f'mu_n{k}' for k in range(len(self.ctx['mus']))], 'mu_scale'
+
+    def param_form(self, name):
+        return self.f['mu'] if name == 'mu_scale' else self.f['p']
+
+    def param_state(self):
+        """current values of the parameters of the shared argument objects"""
+        nest_names, mu_name = self.param_names()
+        st = {n: self.ctx['mus'][k] for k, n in enumerate(nest_names)}
+        if mu_name:
+            st[mu_name] = self.ctx['mu']
+        return st
+
+    def apply_set(self, A, how, point, history, built, state, betas):
+        """One step '@set': the values `point` (name -> value) are given to the parameters
+          how = 'expr'  - Expression.change_init_values(point) on every expression built so far in the history,
+                'param' - change_init_values(point) on the parameter objects themselves,
+                'nests' - through the nest object: correlation(parameters=point) (nested) / covariance(i, j, parameters=point)
+                          (cross-nested; scipy's dblquad is owned: a one-point rule, the value of the integral is not used),
+                'betas' - no object is changed: the dictionary is passed as betas= to every later evaluation.
+        `state` (the reference's view of the current values) is updated by the documented semantics: a value reaches a
+        parameter that is a Beta (fixed or free: 'The fact that the parameters are fixed or free is irrelevant here') and is
+        reachable by the route; numbers / Numeric keep their value; betas= concerns the free parameters."""
+        point = {str(n): float(v) for n, v in point.items()}
+        nest_names, mu_name = self.param_names()
+        is_beta = lambda n: self.param_form(n) in ('fixbeta', 'freebeta')
+        reached = set()
+        if how == 'param':
+            for name, obj in A['params'].items():
+                if hasattr(obj, 'change_init_values'):
+                    obj.change_init_values(dict(point))
+            reached = set(A['params'])
+        elif how == 'expr':
+            for k, exprs in built.items():
+                step = history[k]
+                for e in exprs:
+                    e.change_init_values(dict(point))
+                if step[0] not in ('logit', 'loglogit') and (len(step) < 4 or step[3] != 'N1'):
+                    reached |= set(nest_names)
+                if uses_mu(step[0]) and step[0] not in ('logit', 'loglogit'):
+                    reached.add(mu_name)
+        elif how == 'nests':
+            if self.kind == 'nested':
+                A['nests'].correlation(parameters=dict(point))
+            else:
+                import biogeme.nests as bn
+                keep = bn.dblquad
+                bn.dblquad = lambda func, a, b, gfun, hfun, *args, **kw: (float(func(0.5, 0.25)), 0.0)
+                try:
+                    A['nests'].covariance(self.alts[0], self.alts[1], dict(point))
+                finally:
+                    bn.dblquad = keep
+            reached = set(nest_names)
+        elif how == 'betas':
+            betas.update({n: v for n, v in point.items() if n in state and self.param_form(n) == 'freebeta'})
+        else:
+            raise ValueError(how)
+        for n, v in point.items():
+            if n in state and n in reached and is_beta(n):
+                state[n] = v
+        for n, v in betas.items():      # a value passed with betas= has precedence over the value held by the object
+            state[n] = v
+
+    def call(self, model, A, choice, log_gi=None, dev=None):
         if model in ('mev', 'logmev') or model in ENDO_MODELS + ENDO_ALIASES:
             log_gi = A['log_gi']
-        return build_model(model, A['V'], A['av'], A['nests'], choice, A['mu'], log_gi, correction=A.get('correction'))
+        V, av, nests = self.args_for(A, dev)
+        return build_model(model, V, av, nests, choice, A['mu'], log_gi, correction=A.get('correction'))
 
-    def evaluate(self, expr):
+    def evaluate(self, expr, betas=None):
         import numpy as np
-        vals = expr.get_value_c(database=self.db, prepare_ids=True)
+        vals = expr.get_value_c(database=self.db, betas=betas, prepare_ids=True)
         return np.asarray(vals, dtype=float).reshape(-1, self.J)
 
 
+def is_call(step):
+    return not str(step[0]).startswith('@')
+
+
+def step_dev(step):
+    """the object of the second set of argument objects that a call takes (None: every argument is the shared one)"""
+    return step[3] if len(step) > 3 else None
+
+
+def history_tag(history):
+    """class of a history for the finding keys"""
+    if any(not is_call(s) for s in history):
+        return SET_TAG
+    if any(step_dev(s) for s in history):
+        return ARGS_TAG
+    return HIST_TAG
+
+
 def run_history(hc, history, rec, eval_all=False):
-    """history = [[entry point, 'var' | 'loop', order], ...].  'var': one call, the choice is the data column; 'loop':
-    one call per alternative in the given order with the alternative as constant choice (for a model assembled from a
-    ln G_i helper the helper is called once and its dict is used by every call of the loop).  All calls are made first,
-    with ONE set of argument objects; then the last expression(s) (all of them if eval_all, and the probability / log
-    partner of the last one) are evaluated and checked against every clause."""
+    """history = list of steps.
+      [entry point, 'var' | 'loop', order(, dev)] - a call.  'var': one call, the choice is the data column; 'loop': one call
+          per alternative in the given order with the alternative as constant choice (for a model assembled from a ln G_i
+          helper the helper is called once and its dict is used by every call of the loop).  The calls are made with ONE set
+          of argument objects; with dev = 'V1' | 'V2' | 'N1' | 'A1' the call takes that one argument from a second set of
+          objects (see HistContext.args_for) and every other argument from the shared set.
+      ['@set', how, point] - the values of the parameter objects are changed on the live objects (HistContext.apply_set).
+      ['@eval'] - every expression built so far is evaluated and checked, with the values the parameters have at that point.
+    All steps are made first; then the last expression(s) (all of them if eval_all or if the history changes parameter
+    values, and the probability / log partner of the last one) are evaluated and checked against every clause, with the
+    utilities / availabilities of their own call and the values that the parameters have then."""
     import numpy as np
     alts = hc.alts
     hist_case = dict(ctx=hc.ctx, history=history, seed=hc.seed, tier=hc.tier, eval_all=eval_all)
+    tag = history_tag(history)
+    calls = [k for k, s in enumerate(history) if is_call(s)]
+    results = []        # (call index, index of the '@eval' step | None, values, parameter values at the evaluation)
     try:
         A = hc.new_args()
-        built = []
-        for model, mode, order in history:
-            if mode == 'var':
-                built.append([hc.call(model, A, A['choice'])])
+        state = hc.param_state()
+        betas = {}
+        built = {}
+
+        def evaluate_calls(ks, at):
+            for k in ks:
+                model, mode, order = history[k][:3]
+                if mode == 'var':
+                    vals = hc.evaluate(built[k][0], dict(betas) or None)
+                else:
+                    vals = np.full((len(hc.table.groups), hc.J), np.nan)
+                    for a, e in zip(order, built[k]):
+                        j = alts.index(a)
+                        vals[:, j] = hc.evaluate(e, dict(betas) or None)[:, j]
+                results.append((k, at, vals, dict(state)))
+
+        for k, step in enumerate(history):
+            if step[0] == '@set':
+                hc.apply_set(A, step[1], step[2], history, built, state, betas)
+            elif step[0] == '@eval':
+                evaluate_calls(sorted(built), k)
             else:
-                lg = None
-                if '+' in model:
-                    lg = call_helper(model.split('+')[1], A['V'], A['av'], A['nests'], A['mu'])
-                built.append([(a, hc.call(model, A, a, lg)) for a in order])
-        last = len(history) - 1
-        todo = [k for k in range(len(history)) if eval_all or k == last or
-                LOG_OF.get(history[k][0]) == history[last][0] or LOG_OF.get(history[last][0]) == history[k][0]]
-        results = {}
-        for k in todo:
-            model, mode, order = history[k]
-            if mode == 'var':
-                vals = hc.evaluate(built[k][0])
-            else:
-                vals = np.full((len(hc.table.groups), hc.J), np.nan)
-                for a, e in built[k]:
-                    j = alts.index(a)
-                    vals[:, j] = hc.evaluate(e)[:, j]
-            results[k] = vals
+                model, mode, order = step[:3]
+                dev = step_dev(step)
+                if mode == 'var':
+                    built[k] = [hc.call(model, A, A['choice'], dev=dev)]
+                else:
+                    lg = None
+                    if '+' in model:
+                        V_, av_, nests_ = hc.args_for(A, dev)
+                        lg = call_helper(model.split('+')[1], V_, av_, nests_, A['mu'])
+                    built[k] = [hc.call(model, A, a, lg, dev=dev) for a in order]
+        last = calls[-1]
+        same_args = lambda k: step_dev(history[k]) == step_dev(history[last])
+        todo = [k for k in calls if eval_all or tag == SET_TAG or k == last or
+                (same_args(k) and (LOG_OF.get(history[k][0]) == history[last][0] or LOG_OF.get(history[last][0]) == history[k][0]))]
+        evaluate_calls(todo, None)
     except Exception as e:  # every history is made of valid calls
         if isinstance(e, RuntimeError):
             rec.retire = True
         grp = hc.table.describe_group(0)
-        rec.violation(f'{ID}|model-raises-{type(e).__name__}|history|{HIST_TAG}',
+        rec.violation(f'{ID}|model-raises-{type(e).__name__}|history|{tag}',
                       f'the history {history} of calls made with one set of argument objects raised {type(e).__name__}: '
-                      f'{str(e)[:300]} (context {hc.ctx})', dict(part='hist', hist=dict(hist_case, step=0, later=True), group=grp),
+                      f'{str(e)[:300]} (context {hc.ctx})',
+                      dict(part='hist', hist=dict(hist_case, step=0, later=True, tag=tag), group=grp),
                       expected='probabilities', observed=repr(e)[:300])
         rec.case(None, ('raised', json.dumps(history), type(e).__name__), outcome=('history', 'raised'))
         return
+    nest_names, mu_name = hc.param_names()
     specs = {}
-    for k, vals in results.items():
-        model, mode, order = history[k]
+    for n, (k, at, vals, st) in enumerate(results):
+        model, mode, order = history[k][:3]
+        dev = step_dev(history[k])
         later = len(history) > 1 or mode == 'loop'      # evaluated after every call of the history was made
-        spec = dict(hc.base_spec(model), hist=dict(hist_case, step=k, later=later))
-        specs[k] = spec
-        bad = check_values(spec, hc.table, vals, hc.ref(spec), rec, log_model=model in LOG_OF)
-        record_cases(spec, hc.table, vals, bad, rec)
-    for k, vals in results.items():
+        h = dict(hist_case, step=k, later=later)
+        if tag != HIST_TAG:
+            h['tag'] = tag
+        if at is not None:
+            h['at'] = at
+        spec = dict(hc.base_spec(model), hist=h)
+        if 'mus' in spec:
+            # the values that the parameters of this call have when it is evaluated
+            spec['mus'] = hc.dev_mus() if dev == 'N1' else [st[x] for x in nest_names]
+            if spec.get('mu') is not None:
+                spec['mu'] = st[mu_name]
+        specs[n] = spec
+        view = hc.view(dev)
+        bad = check_values(spec, view, vals, hc.ref(spec, dev), rec, log_model=model in LOG_OF)
+        record_cases(spec, view, vals, bad, rec)
+    for n, (k, at, vals, st) in enumerate(results):
         pm = LOG_OF.get(history[k][0])
         if pm is None:
             continue
-        for k2, vals2 in results.items():
-            if history[k2][0] == pm:
+        for n2, (k2, at2, vals2, st2) in enumerate(results):
+            if history[k2][0] == pm and at2 == at and step_dev(history[k2]) == step_dev(history[k]):
                 # the pair spans two calls of the history: history class key
-                sp = dict(specs[k], hist=dict(specs[k]['hist'], later=True))
-                compare_log_pair(sp, hc.table, vals2, vals, rec)
+                sp = dict(specs[n], hist=dict(specs[n]['hist'], later=True))
+                compare_log_pair(sp, hc.view(step_dev(history[k])), vals2, vals, rec)
     rec.count('histories')
+    if tag != HIST_TAG:
+        rec.count('histories_' + ('with_a_second_set_of_argument_objects' if tag == ARGS_TAG else 'changing_parameter_values'))
 
 
 def _int_keys(obj):
@@ -1569,7 +1813,102 @@ def hist_histories(hc, task):
     if sub == 'triples':
         C = hist_core_entries(hc.kind)
         return [[[C[x], 'var', None], [y, 'var', None], [z, 'var', None]] for x in task['xs'] for y in C for z in C]
+    if sub == 'args':
+        # a call with the shared argument objects, then a call that takes ONE argument from the second set of objects: every
+        # ordered pair of entry points x every object of the second set (thorough: the other order as well)
+        out = []
+        for x in task['xs']:
+            for y in E:
+                for d in hist_devs(hc.kind, y, hc.tier):
+                    out.append([[E[x], 'var', None], [y, 'var', None, d]])
+                    if hc.tier == 'thorough':
+                        out.append([[y, 'var', None, d], [E[x], 'var', None]])
+        return out
+    if sub == 'set':
+        # the values of the parameter objects are changed after an expression was built with them
+        X = [e for e in E if e not in ('logit', 'loglogit')]
+        if hc.tier == 'quick':
+            # the camelCase names of the ln G_i helpers are wrappers of the same functions: thorough only
+            X = [e for e in X if '+' not in e or e.split('+')[1] == e.split('+')[1].lower()]
+        C = [e for e in hist_core_entries(hc.kind) if e not in ('logit', 'loglogit')]
+        pts = hist_points(hc)
+        hp = [(how, q) for how in SET_HOWS for q in [set_point(hc, how, p) for p in pts] if q]
+        hp0 = [(how, q) for how in SET_HOWS for q in [set_point(hc, how, pts[0])] if q]
+        out = []
+        shapes = task.get('shapes') or ['change', 'eval-change']
+        if 'change' in shapes:
+            out += [[[x, 'var', None], ['@set', how, q]] for x in X for how, q in hp]
+        if 'eval-change' in shapes:
+            out += [[[x, 'var', None], ['@eval'], ['@set', how, q]] for x in C for how, q in hp0]
+        if 'change-call' in shapes:
+            out += [[[x, 'var', None], ['@set', how, q], [y, 'var', None]] for x in C for y in C for how, q in hp
+                    if how in ('expr', 'param')]
+        if 'change-change' in shapes:
+            hp1 = [(how, q) for how in SET_HOWS for q in [set_point(hc, how, pts[1])] if q]
+            out += [[[x, 'var', None], ['@set', h1, q1], ['@set', h2, q2]] for x in C for h1, q1 in hp0 for h2, q2 in hp1]
+        if 'loop-change' in shapes:
+            o = loop_orders(hc.alts, 'quick')[1]
+            out += [[[x, 'loop', o], ['@set', how, q]] for x in C for how, q in hp0]
+        return out
     raise ValueError(sub)
+
+
+SET_HOWS = ['expr', 'param', 'nests', 'betas']
+
+
+def hist_devs(kind, y, tier):
+    """objects of the second set of argument objects that a call of the entry point y can take (quick: the second dict of
+    utilities 'the same plus a constant' only where it is the only possible one)"""
+    if kind == 'usermev':
+        return ['V1']       # the hand-supplied ln G_i are those of the data columns: the same utilities plus a constant only
+    devs = ['V2', 'N1', 'A1'] if tier == 'quick' else ['V1', 'V2', 'N1', 'A1']
+    return [d for d in devs if not (d == 'N1' and y in ('logit', 'loglogit'))]
+
+
+def hist_points(hc):
+    """new values of the parameters (name -> value): [every nest parameter moved to the next value of the alphabet's grid;
+    every nest parameter moved to the value before and the scale moved to the other value of its grid]"""
+    g, sc = hc.alph['mus'], hc.alph['scale']
+    nest_names, mu_name = hc.param_names()
+    rot = lambda m, r: g[(g.index(m) + r) % len(g)]
+    pa = {n: rot(hc.ctx['mus'][k], 1) for k, n in enumerate(nest_names)}
+    pb = {n: rot(hc.ctx['mus'][k], 2) for k, n in enumerate(nest_names)}
+    pb[mu_name] = sc[0] if hc.ctx['mu'] != sc[0] else sc[1]
+    return [pa, pb]
+
+
+def set_point(hc, how, point):
+    """the part of the point that the route `how` can give to the parameters of this context (None: nothing)"""
+    nest_names, mu_name = hc.param_names()
+    beta = lambda n: hc.param_form(n) in ('fixbeta', 'freebeta')
+    if how == 'betas':
+        q = {n: v for n, v in point.items() if hc.param_form(n) == 'freebeta'}
+    elif how == 'nests':
+        q = {n: v for n, v in point.items() if n in nest_names and beta(n)} if hc.f['syntax'] == 'obj' else {}
+    else:
+        q = dict(point) if any(beta(n) for n in point) else {}
+    return q or None
+
+
+def hist_new_contexts(alph, tier, seed):
+    """indices of the contexts (nested, cross-nested) of the histories with a second set of argument objects and of the
+    histories that change parameter values: contexts in which some nest holds two alternatives.
+    quick: one nested and one cross-nested context, rotating with the seed; thorough: every fifth one"""
+    ctxs = hist_contexts(alph, tier, seed)
+    out = []
+    for kind in ('nested', 'cnl'):
+        cis = [ci for ci, c in enumerate(ctxs) if c['kind'] == kind and any(len(n) >= 2 for n in c['nests'])]
+        two = [ci for ci in cis if len(ctxs[ci]['nests']) >= 2]
+        if tier == 'quick':
+            out += _rot(two or cis, int(seed), 1)
+        else:
+            out += cis[int(seed) % 5::5]
+    return out
+
+
+# forms of (nest parameters, scale) in the histories that change parameter values: every pair in which a nest parameter is
+# a Beta (the parameters that are numbers cannot change)
+SET_FORMS = [(pf, mf) for pf in ('fixbeta', 'freebeta') for mf in ('float', 'fixbeta', 'freebeta')]
 
 
 def hist_tasks(alph, tier, seed):
@@ -1591,8 +1930,22 @@ def hist_tasks(alph, tier, seed):
             C = hist_core_entries(ctx['kind'])
             for ch in _chunks(range(len(C)), 2):
                 t.append(dict(part='hist', ci=ci, sub='triples', xs=ch, seed=seed, tier=tier))
-    # histories with the entry points that take correction terms: the context gets one correction vector (rotating)
+    # histories whose calls do not share all their argument objects; histories that change the values of the parameters
     ctxs = hist_contexts(alph, tier, seed)
+    for ci in hist_new_contexts(alph, tier, seed):
+        E = hist_entries(ctxs[ci]['kind'])
+        fo = dict(syntax='obj') if quick else {}
+        for ch in _chunks(range(len(E)), 2 if quick else 1):
+            t.append(dict(part='hist', ci=ci, sub='args', xs=ch, fo=fo, seed=seed, tier=tier))
+        for pf, mf in SET_FORMS:
+            for shapes in ([['change', 'eval-change']] if quick else
+                           [['change'], ['eval-change', 'loop-change'], ['change-call'], ['change-change']]):
+                t.append(dict(part='hist', ci=ci, sub='set', fo=dict(fo, p=pf, mu=mf), shapes=shapes, seed=seed, tier=tier))
+    for J in (2, 3):
+        cis = [ci for ci, c in enumerate(ctxs) if c['kind'] == 'usermev' and c['J'] == J]
+        for ci in _rot(cis, int(seed), 1 if quick else 3):
+            t.append(dict(part='hist', ci=ci, sub='args', xs=list(range(4)), fo={}, seed=seed, tier=tier))
+    # histories with the entry points that take correction terms: the context gets one correction vector (rotating)
     for kind, cnt in (('usermev', 2), ('nested', 1), ('cnl', 1)):
         cis = [ci for ci, c in enumerate(ctxs) if c['kind'] == kind]
         # thorough: every third user-MEV context, every fourth nested / cross-nested context (start rotating with the seed)
@@ -1608,6 +1961,8 @@ def _part_hist(task, alph, rec):
     ctx = hist_contexts(alph, task['tier'], task['seed'])[task['ci']]
     if task.get('corr') is not None:
         ctx = dict(ctx, corr=list(task['corr']), forms=dict(ctx.get('forms', {}), corr=task['cform']))
+    if task.get('fo'):
+        ctx = dict(ctx, forms=dict(ctx.get('forms', {}), **task['fo']))
     hc = HistContext(alph, ctx, task['tier'], task['seed'])
     eval_all = task['tier'] == 'thorough'
     hs = hist_histories(hc, task)
